@@ -102,6 +102,26 @@ def run(repo, rep):
                     if m in L.post and m != v and compare_values(L.post[m], refv) == 'equal':
                         found[nm] = m
             break
+    # conditioning of the angular distance: eq. 16 takes sigma = atan2(sin sigma, cos sigma); an inverse cosine / sine of a quantity that
+    # reaches 1 inside the domain (short lines) loses half of the significant digits
+    cands0 = [v for v in L.carried if v in L.entry and v in L.post and compare_values(L.entry[v], omega) == 'equal']
+    if cands0:
+        from ..symcheck import _DefaultRanges
+        sig_ref = orc.call('inverse_step', lam=L.pre[cands0[0]], omega=omega, u1=u1, u2=u2, f=fl).items[0]
+        for m_ in L.carried:
+            pv = L.post.get(m_)
+            if not isinstance(pv, Rat) or m_ == cands0[0]:
+                continue
+            top = _single_atom(pv)
+            hops = 0
+            while top is not None and top.kind == 'fn' and top.name == 'def' and hops < 20:
+                top = _single_atom(top.args[0])
+                hops += 1
+            if top is not None and top.kind == 'fn' and top.name in ('acos', 'asin') and compare_values(pv, sig_ref) != 'equal' \
+                    and alg.numeric_agree(pv, sig_ref, _DefaultRanges()):
+                rep.violated('R-COND', 'R-COND::geodepy/geodesy.py::vincinv::sigma', wl, 'the angular distance is taken as %s(...) of a quantity that tends to 1 for short lines: for a '
+                             'separation of a few metres it keeps 3 to 4 digits only (a 0.22 m line comes back as 0.232 m, against the 2 mm of the property); '
+                             'Vincenty eq. 16 is sigma = atan2(sin sigma, cos sigma)' % top.name, expected='atan2(sin_sigma, cos_sigma)', actual=show(pv, 2, 160))
     if Lam is None:
         cands = [v for v in L.carried if v in L.entry and v in L.post and compare_values(L.entry[v], omega) == 'equal']
         if cands:
@@ -122,6 +142,7 @@ def run(repo, rep):
         rep.undecided('R-FORMULA', base + 'loop-quantities', wl, 'sigma / alpha / cos 2 sigma_m produced by the loop not all identified: %s' % sorted(found))
         return
     rep.holds('R-FORMULA', base + 'loop-quantities', wl, 'loop produces sigma (%s), alpha (%s), cos 2 sigma_m (%s) by eq. 74-78' % (found['sigma'], found['alpha'], found['c2sm']))
+    rep.holds('R-COND', 'R-COND::geodepy/geodesy.py::vincinv::sigma', wl, 'sigma = atan2(sin sigma, cos sigma) (well conditioned for short lines)')
     sym = lambda v: Rat.sym('%s@L%d' % (v, L.index))
     fin = orc.call('inverse_finish', lam=sym(Lam), sigma=sym(found['sigma']), alpha=sym(found['alpha']), c2sm=sym(found['c2sm']),
                    u1=u1, u2=u2, a=a, b=b, Ac=Ac, Bc=Bc)
